@@ -1,0 +1,80 @@
+//go:build verif
+
+// Contracts for the deductive verifier in /verif (comment-only; compiled only with -tags verif).
+// The SDK x/nft keeper is abstract (assumed contract A-NFT): nftTokens (existence + stored record), nftOwner, nftClasses.
+package keeper
+
+//@ define OWNER(c, i) = nftOwner[c, i]
+//@ define TOK(c, i) = get(nftTokens, c, i)
+//@ define META(t) = anyval("nft_types_NFTMetadata", t.Data)
+//@ define DMETA(cl) = anyval("nft_types_DenomMetadata", cl.Data)
+//@ define KEEP = "[do-not-modify]"
+// nothing but token (c, i) changes in the token table, and its identity stays
+//@ define onlyToken(c, i) = nftTokens == set(old(nftTokens), c, i, TOK(c, i)) && TOK(c, i).Id == i && TOK(c, i).ClassId == c
+
+//@ func Keeper.Authorize
+//@   property C14
+//@   returns err
+//@   ensures owner_only: err == nil ==> owner == OWNER(denomID, tokenID)
+//@ end
+
+//@ func Keeper.SaveNFT
+//@   property C14
+//@   returns err
+//@   modifies nftTokens, nftOwner
+//@   ensures fresh_id: err == nil ==> !old(has(nftTokens, denomID, tokenID)) && has(nftClasses, denomID)
+//@   ensures minted:   err == nil ==> nftOwner == store(old(nftOwner), nftkey(denomID, tokenID), receiver) && onlyToken(denomID, tokenID) && has(nftTokens, denomID, tokenID)
+//@ end
+
+//@ func Keeper.UpdateNFT
+//@   property C14
+//@   returns err
+//@   modifies nftTokens
+//@   ensures owner_only: err == nil ==> owner == OWNER(denomID, tokenID)
+//@   ensures not_restricted: err == nil ==> has(nftClasses, denomID) && !DMETA(get(nftClasses, denomID)).UpdateRestricted
+//@   ensures only_this: err == nil ==> nftTokens == old(nftTokens) || (old(has(nftTokens, denomID, tokenID)) && onlyToken(denomID, tokenID))
+//@ end
+
+//@ func Keeper.TransferOwnership
+//@   property C14
+//@   returns err
+//@   modifies nftTokens, nftOwner
+//@   let t0 = TOK(denomID, tokenID)
+//@   ensures owner_only:  err == nil ==> old(has(nftTokens, denomID, tokenID)) && srcOwner == old(OWNER(denomID, tokenID))
+//@   ensures new_owner:   err == nil ==> nftOwner == store(old(nftOwner), nftkey(denomID, tokenID), dstOwner)
+//@   ensures restricted_keeps_metadata: err == nil && DMETA(get(nftClasses, denomID)).UpdateRestricted ==> nftTokens == old(nftTokens)
+//@   ensures sentinel_keeps_metadata:   err == nil && tokenNm == KEEP && tokenURI == KEEP && tokenURIHash == KEEP && tokenData == KEEP ==> nftTokens == old(nftTokens)
+//@   ensures only_this:   err == nil ==> nftTokens == old(nftTokens) || onlyToken(denomID, tokenID)
+//@   ensures fields:      err == nil ==> TOK(denomID, tokenID).Uri == ite(tokenURI == KEEP, t0.Uri, tokenURI)
+//@                                    && TOK(denomID, tokenID).UriHash == ite(tokenURIHash == KEEP, t0.UriHash, tokenURIHash)
+//@ end
+
+//@ func Keeper.RemoveNFT
+//@   property C14
+//@   returns err
+//@   modifies nftTokens, nftOwner
+//@   ensures owner_only: err == nil ==> owner == old(OWNER(denomID, tokenID)) && old(has(nftTokens, denomID, tokenID))
+//@   ensures removed:    err == nil ==> nftTokens == del(old(nftTokens), denomID, tokenID)
+//@ end
+
+//@ func Keeper.TransferDenomOwner
+//@   property C14
+//@   returns err
+//@   modifies nftClasses
+//@   let c0 = get(nftClasses, denomID)
+//@   ensures creator_only: err == nil ==> old(has(nftClasses, denomID)) && bech(srcOwner) == DMETA(c0).Creator
+//@   ensures handed: err == nil ==> nftClasses == set(old(nftClasses), denomID, get(nftClasses, denomID))
+//@        && get(nftClasses, denomID).Id == denomID && get(nftClasses, denomID).Name == c0.Name && get(nftClasses, denomID).Symbol == c0.Symbol
+//@        && DMETA(get(nftClasses, denomID)).Creator == bech(dstOwner)
+//@        && DMETA(get(nftClasses, denomID)).MintRestricted == DMETA(c0).MintRestricted
+//@        && DMETA(get(nftClasses, denomID)).UpdateRestricted == DMETA(c0).UpdateRestricted
+//@        && DMETA(get(nftClasses, denomID)).Schema == DMETA(c0).Schema
+//@ end
+
+//@ func Keeper.MintNFT
+//@   property C14
+//@   returns resp, err
+//@   modifies nftTokens, nftOwner
+//@   ensures mint_restricted: err == nil && DMETA(get(nftClasses, msg.DenomId)).MintRestricted ==> msg.Sender == DMETA(get(nftClasses, msg.DenomId)).Creator
+//@   ensures minted: err == nil ==> !old(has(nftTokens, msg.DenomId, msg.Id)) && OWNER(msg.DenomId, msg.Id) == addr(msg.Recipient)
+//@ end
